@@ -469,7 +469,7 @@ pub fn bld() -> BoxedStrategy<Bld> {
         prop_oneof![
             (dec2(-30.0, 30.0), dec2(-30.0, 30.0), dec2(0.0, 10.0), dec2(0.5, 10.0), dec2(0.5, 10.0), prop_oneof![Just(0.0f32), Just(90.0), Just(180.0), Just(270.0), dec2(0.0, 359.0)], prop_oneof![3 => Just(90.0f32), 1 => dec2(10.0, 170.0)])
                 .prop_map(|(x, y, z, width, height, azimuth, tilt)| ShadeB::Rect { name: String::new(), x, y, z, width, height, azimuth, tilt }),
-            (dec2(-30.0, 30.0), dec2(-30.0, 30.0), dec2(0.0, 10.0), dec2(1.0, 8.0), dec2(1.0, 8.0), dec2(0.0, 359.0), prop_oneof![Just(90.0f32), Just(0.0f32), dec2(20.0, 160.0)]).prop_map(|(x, y, z, w, h, az, tilt)| {
+            (dec2(-30.0, 30.0), dec2(-30.0, 30.0), dec2(0.0, 10.0), dec2(1.0, 15.0), dec2(1.0, 15.0), dec2(0.0, 359.0), prop_oneof![3 => Just(90.0f32), 2 => Just(0.0f32), 4 => dec2(20.0, 160.0), 2 => dec2(0.05, 3.0), 1 => dec2(3.0, 20.0)]).prop_map(|(x, y, z, w, h, az, tilt)| {
                 // a planar rectangle in a random pose, given by its four corners
                 let (sa, ca) = ((az as f64).to_radians().sin_cos());
                 let (st, ct) = ((tilt as f64).to_radians().sin_cos());
@@ -505,8 +505,10 @@ pub fn bld() -> BoxedStrategy<Bld> {
                 })
                 .collect::<Vec<_>>()
         });
-    let general = (0u8..32, prop_oneof![Just("Unifamiliar"), Just("Bloque"), Just("UnaBloque"), Just("Terciario"), Just("Gran")], any::<bool>(), 1i32..20, dec2(0.0, 500.0), opt(2, dec2(0.5, 10.0)))
-        .prop_map(|(zone, tipo, nuevo, num_viviendas, impulsion, n50)| GeneralB { name: "Proyecto generado".into(), zone, tipo: tipo.to_string(), nuevo, num_viviendas, impulsion, n50 });
+    // project names: usual, empty (an unnamed project) and the text the model uses as its own default
+    let pname = prop_oneof![4 => Just("Proyecto generado"), 2 => Just(""), 1 => Just("Nombre del proyecto"), 1 => Just("Reforma 2ª fase & <anexo>")];
+    let general = (0u8..32, prop_oneof![Just("Unifamiliar"), Just("Bloque"), Just("UnaBloque"), Just("Terciario"), Just("Gran")], any::<bool>(), 1i32..20, dec2(0.0, 500.0), opt(2, dec2(0.5, 10.0)), pname)
+        .prop_map(|(zone, tipo, nuevo, num_viviendas, impulsion, n50, pname)| GeneralB { name: pname.to_string(), zone, tipo: tipo.to_string(), nuevo, num_viviendas, impulsion, n50 });
     (
         (any::<u32>(), prop_oneof![2 => Just(0.0f32), 1 => Just(180.0f32), 3 => dec2(0.0, 359.99)], prop_oneof![2 => Just(0.0f32), 1 => dec2(0.1, 3.0)], prop_oneof![2 => Just(0.0f32), 1 => dec2(0.1, 5.0)], general),
         (mats, layers, glasses, frames, gaps),
